@@ -178,9 +178,9 @@ theorem removeConsolidate_inv {f : Forest} (hi : f.Inv) (prev next : Option Nat)
     · exact hi
 
 /-- `add_consolidate_text_nodes` preserves the invariant, whatever its arguments. -/
-theorem addConsolidate_inv {f : Forest} (hi : f.Inv) (node : Nat) (prev next : Option Nat) :
-    (f.addConsolidate node prev next).1.Inv := by
-  unfold addConsolidate
+theorem addConsolidateOld_inv {f : Forest} (hi : f.Inv) (node : Nat) (prev next : Option Nat) :
+    (f.addConsolidateOld node prev next).1.Inv := by
+  unfold addConsolidateOld
   split
   · exact hi
   · cases hnode : f.textOf node with
@@ -206,6 +206,12 @@ theorem addConsolidate_inv {f : Forest} (hi : f.Inv) (node : Nat) (prev next : O
         | none => exact viaNext
       | none => exact viaNext
 
+/-- `add_consolidate_text_nodes` (eccbbb7: a neighbour that is the node itself is read as the
+    node's own sibling) preserves the invariant, whatever its arguments. -/
+theorem addConsolidate_inv {f : Forest} (hi : f.Inv) (node : Nat) (prev next : Option Nat) :
+    (f.addConsolidate node prev next).1.Inv := by
+  rw [addConsolidate_eq_old]; exact addConsolidateOld_inv hi _ _ _
+
 theorem addConsolidate_viaNext_false {f f' : Forest} {node : Nat} {added : Str} {next : Option Nat}
     (h : (match next with
           | some n => (match f.textOf n with
@@ -223,7 +229,10 @@ theorem addConsolidate_viaNext_false {f f' : Forest} {node : Nat} {added : Str} 
 /-- A consolidation helper that reports `false` has not touched the forest. -/
 theorem addConsolidate_false {f f' : Forest} {node : Nat} {prev next : Option Nat}
     (h : f.addConsolidate node prev next = (f', false)) : f' = f := by
-  unfold addConsolidate at h
+  rw [addConsolidate_eq_old] at h
+  generalize f.selfPrev node prev = prev at h
+  generalize f.selfNext node next = next at h
+  unfold addConsolidateOld at h
   split at h
   · cases h; rfl
   · cases hnode : f.textOf node with
